@@ -17,7 +17,7 @@ def lifecycle(draw):
   for _ in range(n):
     k = draw(st.sampled_from(["start", "start", "stop", "stop_quietly", "subscribe", "publish", "publish",
                               "settle", "start_object", "post", "clear", "object_publish", "race", "poison",
-                              "object_print", "wake_stale", "race_starts"]))
+                              "object_print", "wake_stale", "race_starts", "race_clear"]))
     if k in ("subscribe", "publish"):
       ops.append([k, draw(st.sampled_from(SIGS))])
     else:
@@ -63,7 +63,7 @@ class C13(Prop):
           "not separated from its subscription by a clear()) is delivered exactly once per kind, in publication order - "
           "never twice, which a second pair of delivery threads would cause... and after the final "
           "stop(); start() the fresh subscription receives the fresh publication exactly once. "
-          "Non-trivial: the history calls start() while the fabric is already running, or races stop() with start(); distinct = "
+          "'race_clear': stop() and clear() called at the same time from two threads (both return, no delivery thread survives). Non-trivial: the history calls start() while the fabric is already running, or races stop() with start(); distinct = "
           "distinct case digests.")
   assumptions = ["delivery between a clear() on a running fabric and the next stop/start is not asserted",
                  "publications made while the fabric is stopped may be delivered after a restart or not (0..1)"]
@@ -249,6 +249,24 @@ class C13(Prop):
             raise PropertyViolation("%s: stop() returned but delivery threads are alive" % where, "C13:stop")
           stale.extend(objects)
           del objects[:]
+        elif k == "race_clear":
+          # stop() and clear() called at the same time from two threads: stop() still ends both
+          # delivery threads and returns (clear() empties the very queues stop() wakes them through)
+          flags["race"] = True
+          if not running:
+            do_start()
+            running = True
+          helpers = [ao.Thread(target=af.stop, name="vfstopper"), ao.Thread(target=af.clear, name="vfclearer")]
+          for h in helpers:
+            h.start()
+          s.quiesce()
+          late = [h.name for h in helpers if h.is_alive()]
+          if late or alive_fabric():
+            raise PropertyViolation("%s: stop() and clear() were called at the same time; not returned: %s, delivery "
+                                    "threads still alive: %s" % (where, late, [t.name for t in alive_fabric()]), "C13:stop")
+          epoch[0] += 1
+          recorders.clear()
+          k = "stop"
         elif k == "race":
           # stop() and start() called at the same time from two threads.  Which of them wins is
           # not asserted; what must hold whatever the interleaving: never two delivery threads
